@@ -439,6 +439,18 @@ pub fn run_cat(c: &mut Ctx, count: usize) {
                 let (a, bb) = (f.clone(), g.clone());
                 c.emit("lax.lax_compose", vec![f.enc(), g.enc()], move || opt(a.to_lf().lax_compose(&bb.to_lf()).map(|r| enc_lf(&r))));
             }
+            15 => {
+                // JSON (serde feature): documented field names, round trip
+                let f = { let p_ = c.rng.chance(1, 2); gen_lf(c, p_, true) };
+                let a = f.clone();
+                c.emit("lax.json", vec![f.enc()], move || {
+                    let x = a.to_lf();
+                    let v = serde_json::to_value(&x).unwrap();
+                    let text = serde_json::to_string(&v).unwrap();
+                    let back: Lf = serde_json::from_str(&serde_json::to_string(&x).unwrap()).unwrap();
+                    ok(list(vec![Sx::Str(text), b(back == x)]))
+                });
+            }
             _ => {
                 let f = { let p_ = c.rng.chance(1, 2); gen_lf(c, p_, true) };
                 let a = f.clone();
